@@ -8,10 +8,53 @@ import (
 	"verif/harness"
 )
 
+// genReopenProgram draws a producer/consumer history in which the queue (and
+// file) is closed and reopened at many points, each followed by a drain probe.
+func genReopenProgram(rt *rapid.T, params harness.QGenParams) *harness.QProgram {
+	p := harness.GenQProgram(rt, params)
+	var steps []harness.QStep
+	for _, s := range p.Steps {
+		steps = append(steps, s)
+		if (s.K == harness.QAck || s.K == harness.QFlush || s.K == harness.QRDone) && rapid.IntRange(0, 2).Draw(rt, "reopenHere") == 0 {
+			k := harness.QReopenQ
+			if rapid.IntRange(0, 1).Draw(rt, "file") == 1 {
+				k = harness.QReopenF
+			}
+			steps = append(steps, harness.QStep{K: k}, harness.QStep{K: harness.QProbe})
+		}
+	}
+	p.Steps = append(steps, harness.QStep{K: harness.QReopenF}, harness.QStep{K: harness.QProbe}, harness.QStep{K: harness.QDrain}, harness.QStep{K: harness.QAckAll},
+		harness.QStep{K: harness.QReopenQ}, harness.QStep{K: harness.QProbe})
+	return p
+}
+
 func TestC06(t *testing.T) {
 	th := thorough()
 	params := C06Params(th)
-	checkQueue(t, "C06", func(rt *rapid.T) *harness.QProgram {
+	rec := harness.NewRecorder("C06", "queue")
+	completed := false
+	defer func() { rec.Flush(completed) }()
+
+	// part 1: clean close/reopen points (cheap: 24 histories per generated case)
+	FilterKnown = true
+	rec.SetKind("queue")
+	rp := params
+	rp.Reopen = false
+	rapid.Check(t, func(rt *rapid.T) {
+		for i := 0; i < 24; i++ {
+			p := genReopenProgram(rt, rp)
+			noteCase("C06", "queue", p.JSON())
+			res := Guard(func() Result { return RunC06Reopen(p) })
+			rec.Case(p.JSON(), p.Hash(), res.Counters, res.Nontrivial, res.V)
+			abortOnHang(rec, res.V)
+			if res.V != nil {
+				rt.Fatalf("C06 violated: %v", res.V)
+			}
+		}
+	})
+
+	// part 2: crash images
+	checkQueueRec(t, rec, "C06", func(rt *rapid.T) *harness.QProgram {
 		p := harness.GenQProgram(rt, params)
 		thr := uint64(0)
 		if th {
@@ -20,4 +63,5 @@ func TestC06(t *testing.T) {
 		p.Aux = []uint64{0, rapid.Uint64().Draw(rt, "crashseed"), thr}
 		return p
 	}, func(p *harness.QProgram) Result { return RunC06(p, th) })
+	completed = true
 }
